@@ -113,7 +113,9 @@ structure AFTOperation where
   Id : Nat
   ElectionId : Option U128
   Op : Nat
-  /-- everything else the message carries (network instance, entry): never looked at -/
+  /-- `GetNetworkInstance()` -/
+  NetworkInstance : String := ""
+  /-- everything else the message carries (the entry): never looked at -/
   Body : Nat := 0
   deriving DecidableEq, Repr, Inhabited
 
@@ -250,6 +252,8 @@ inductive Eff where
   | runElection (id : String) (e : Option U128)
   | doModify (id : String)
   | send (r : Option MResp)
+  /-- `modifyEntry(rib, ni, op, fibACK, election)` called by `doModify` -/
+  | modifyEntry (ni : String) (op : Option AFTOperation) (fib : Bool) (e : Option ElectionDetails)
   | flush (nis : List String)
   /-- `errCh <- e` in `doGet`: the Get RPC will end with this error -/
   | sendErr (e : Option Status)
